@@ -84,9 +84,22 @@ def grouping_of(repo: Repo, fn: Function) -> Grouping:
     fn = flatten(fn)  # the grouping may live in a private helper of the same class / module
     L = Locals(fn.node)
     consts = {}
-    for st in mod.tree.body:
-        if isinstance(st, ast.Assign) and isinstance(st.targets[0], ast.Name) and const_str(st.value) is not None:
-            consts[st.targets[0].id] = const_str(st.value)
+    # string constants of the package (a helper inlined from a sibling module keeps referring to that module's constants);
+    # the function's own module wins, names bound to different values in different modules are dropped
+    clash = set()
+    for m_ in list(repo.modules.values()) + [mod]:
+        for st in m_.tree.body:
+            if isinstance(st, ast.Assign) and isinstance(st.targets[0], ast.Name) and const_str(st.value) is not None:
+                nm_, v_ = st.targets[0].id, const_str(st.value)
+                if m_ is mod:
+                    consts[nm_] = v_
+                    clash.discard(nm_)
+                elif nm_ in consts and consts[nm_] != v_:
+                    clash.add(nm_)
+                else:
+                    consts[nm_] = v_
+    for nm_ in clash:
+        consts.pop(nm_, None)
     all_tags = False
     key_fn = None
     default_tag = None
